@@ -1229,6 +1229,8 @@ class Ev:
     def e_Subscript(self, node):
         from . import builtins as B
         base = self.expr(node.value)
+        if isinstance(base, VGlobal) and base.name.split(".")[0] in ("typing", "t"):
+            return VGlobal(base.name + "[...]")      # a type expression (typing.cast argument): no run-time meaning
         if isinstance(node.slice, ast.Slice):
             lo = self.expr(node.slice.lower) if node.slice.lower is not None else None
             hi = self.expr(node.slice.upper) if node.slice.upper is not None else None
